@@ -15,6 +15,9 @@ from ..report import Check
 S = T.sym
 
 
+REF_START_TOKENS = 10  # rex/asynchronous.py::_AsyncNodeWrapper._start, `num_tokens` of the reference tree
+
+
 def _calls(r, pred):
     return [e for e in r.events if e.kind == "call" and pred(e)]
 
@@ -55,7 +58,7 @@ def rule_handshake(chk: Check, view: AsyncView, rid: str):
         flag = S("self._must_reset")
         chk.add(rid, "sync: wait only while no stop was requested", flow.implies(w.guard, T.mk_not(flag)),
                 f"the wait on the action future is not guarded by `not self._must_reset` (guard {T.show(w.guard)[:100]})", chk.loc(fi, w.node))
-        early = [e for e in r.events if e.idx < a.idx and mentions(e.guard, "_must_reset")]
+        early = [e for e in r.events if e.idx < a.idx and (mentions(e.guard, "_must_reset") or (e.kind == "read" and e.name.endswith("_must_reset")))]
         chk.add(rid, "sync: stop flag read after publishing", not early, "the stop flag is tested before the action future is published: "
                 "a stop() in between would neither see the future nor be seen", loc)
         # the released observation is the step state of this call; the new future becomes current
@@ -182,6 +185,55 @@ def rule_handshake(chk: Check, view: AsyncView, rid: str):
     chk.add(rid, "_stopping: bounded wait on inputs", bool(tmo), "the wait on the inputs' stop futures must pass the caller's timeout", chk.loc(fi))
 
 
+def rule_api_phases(chk: Check, view: AsyncView, rid: str):
+    """Typestate of the user side of the hand-off.  run_until_supervisor (U) blocks until the supervisor publishes a *new* observation,
+    which it does only after its previous step was answered; run_supervisor (S) answers the pending step (action[-1]).  Hence inside an
+    episode U and S must alternate, starting with U.  Every public call is a word over {start, U, S}; two calls in a row are sound iff
+    the second restarts the episode (unconditional start) or continues the alternation where the first one stopped."""
+    from .c02 import api_sequence
+    chk.rule(rid, "driving API as typestate (A9/A10): within an episode run_until_supervisor and run_supervisor alternate; for every ordered pair of "
+                  "public calls (reset | run | step) the second call either restarts the episode or begins with the operation the first call left pending")
+    m = view.model
+    # the two facts the alternation rests on, from the code
+    fu = m.func(f"{GRAPH}.run_until_supervisor")
+    ru = view.ar.eval(fu.qualname)
+    waits = [e for e in ru.events if e.kind == "call" and e.name.endswith(".result") and mentions(e.recv, "observation") and mentions(e.recv, "popleft")]
+    chk.add(rid, "U waits for the next queued observation", len(waits) == 1 and waits[0].guard == T.TRUE and not waits[0].args and not waits[0].kwargs,
+            "run_until_supervisor must block on observation.popleft().result()", chk.loc(fu))
+    fs = m.func(f"{GRAPH}.run_supervisor")
+    rs = view.ar.eval(fs.qualname)
+    sets = [e for e in rs.events if e.kind == "call" and e.name.endswith(".set_result") and mentions(e.recv, "action")]
+    chk.add(rid, "S answers the pending action", len(sets) == 1 and sets[0].recv == T.mk_index(S("self._synchronizer.action"), T.const(-1)),
+            "run_supervisor must resolve self._synchronizer.action[-1]", chk.loc(fs))
+    api = api_sequence(m, GRAPH)
+    words = {}
+    for name, (fi, r, seq) in api.items():
+        chk.used(fi.qualname)
+        w = []
+        for op, guard, _a, _k, _e in seq:
+            sym = {"start": "B", "run_until_supervisor": "U", "run_supervisor": "S"}[op]
+            if sym == "B" and guard != T.TRUE:
+                continue  # start only on the first call of an episode: absent when another call came before
+            w.append(sym)
+        words[name] = w
+        # inside one call the operations alternate
+        core = [x for x in w if x != "B"]
+        chk.add(rid, f"{name}: U and S alternate inside the call", all(a != b for a, b in zip(core, core[1:])) and bool(core), f"{name} performs {w}", chk.loc(fi))
+    for a in ("reset", "run", "step"):
+        for b in ("reset", "run", "step"):
+            wa, wb = words[a], words[b]
+            if not wa or not wb:
+                continue
+            last = [x for x in wa if x != "B"][-1]
+            if wb[0] == "B":
+                ok, why = True, ""
+            elif wb[0] == "U":
+                ok, why = last == "S", f"{b}() starts by waiting for a new observation, but after {a}() the supervisor is still waiting for its action: neither thread can proceed"
+            else:
+                ok, why = last == "U", f"{b}() starts by answering the supervisor's step, but {a}() has already answered it: there is no pending action (and the next wait never ends)"
+            chk.add(rid, f"history:{a};{b}", ok, why, chk.loc(api[b][0]))
+
+
 def run(chk: Check, model):
     view = AsyncView(model)
     for k in view.results:
@@ -192,6 +244,24 @@ def run(chk: Check, model):
     rule_queue_discipline(chk, view, "C05.queues")
     rule_reset_complete(chk, view, "C05.reset")
     rule_eps_filter(chk, view, "C05.eps")
+    rule_api_phases(chk, view, "C05.api")
+    # the supported class of graphs is parameterised by the look-ahead a node is started with (its source says so: "deadlocks may
+    # occur when num_tokens is chosen too low ... at least the rate multiple + 1"); the reference value is a lower bound - lowering
+    # it makes reset()/step() of graphs inside the documented class wait for ever
+    rst = view.results["node._start"]
+    ext = [e for e in rst.events if e.kind == "call" and e.name == "self.q_tick.extend"]
+    n_tok = None
+    if len(ext) == 1 and ext[0].args:
+        a0 = ext[0].args[0]
+        if a0[0] == "call" and a0[1] == "*" and len(a0[2]) == 2:
+            seq_, cnt = (a0[2] if a0[2][0][0] in ("tuple", "list") else a0[2][::-1])
+            if seq_[0] in ("tuple", "list") and len(seq_[1]) == 1 and seq_[1][0] == T.TRUE and T.const_value(cnt) is not None:
+                n_tok = int(T.const_value(cnt))
+        elif a0[0] in ("tuple", "list") and all(x == T.TRUE for x in a0[1]):
+            n_tok = len(a0[1])
+    chk.add("C05.trigger", "start-up look-ahead: at least the reference number of ticks queued at _start", n_tok is not None and n_tok >= REF_START_TOKENS and ext[0].guard == T.TRUE,
+            f"_start queues {n_tok if n_tok is not None else '?'} tick tokens, reference {REF_START_TOKENS}: with fewer, a fast producer of a slower blocking consumer cannot run far enough "
+            "ahead (rate multiple + 1) and the first step() never returns", chk.loc(view.fi("node._start"), ext[0].node if ext else None))
     # "each new episode starts from sequence number 0 and time 0": what a step sees is the per-episode tick / schedule, not whatever
     # the graph state handed to reset() carried over from an earlier episode
     from ..asyncrt import one, queue_ops
